@@ -11,7 +11,7 @@ CONSTS = ['ops', 'asm', 'toy', 'mem']          # constant tables of the models t
 RULE = ("API histories for single-cycle, five-stage and TOY simulations: any number of earlier loads (well-formed texts and texts "
         "failing at every pass), then a final load, then step/run interleavings with extra calls after done; programs incl. empty, "
         "faulting, exiting via ecall, falling off the end, jumping outside; random cache configurations; deep snapshot after every "
-        "call; non-trivial = history with >=2 loads or >=1 call after done; distinct = distinct history")
+        "call; fixed reload patterns (A,bad,A / A,A / A,other,A / bad,A / A,bad,bad,A) for every simulation kind; non-trivial = history with >=2 loads or >=1 call after done; distinct = distinct history")
 ASSUMPTIONS = ["as C04/C19 for the assemblers"]
 
 RV_TEXTS = ["", "nop", "addi x1, x0, 5\naddi x2, x1, 1", "li a7, 10\necall\naddi x1, x0, 1", "li a7, 93\nli a0, 7\necall", "beq x0, x0, 64", "jal x1, 0",
@@ -60,7 +60,36 @@ def toy_case(rng, tier):
     return Case("toy-life", lines, None, {"mode": "toy", "loads": nloads})
 
 
+RV_OK = [".data\nv: .word 1, 2\n.text\nlw x1, v\nsw x1, v[1], x2", "addi x1, x0, 5\naddi x2, x1, 1", ".data\ns: .string \"hi\"\n.text\nli a7, 4\nla a0, s\necall"]
+RV_BAD = [".data\nw: .word 9, 8, 7\n.text\nnop\nj_bad", ".data\nv: .byte 300\n.text\nla x1, q", "a:\na:\nnop", "addi x1, x0, 01"]
+TOY_OK = [".data\nv: .word 1,2,3\n.text\nLDA v\nADD v\nSTO 4000", "INC\nDEC\nNOT", "loop: DEC\nBRZ end\nZRO\nBRZ loop\nend: STO x\n.data\nx: .word 3"]
+TOY_BAD = [".data\nq: .word 7, 7\n.text\nLDA y", "ADD 0x", "a:\na:\nINC", "INC\nx: .word 1"]
+
+
+def reload_patterns(rng, tier):
+    """the same text loaded again after a successful / a failing load of another text, and twice in a row — for every
+    simulation kind, independent of the seed"""
+    for kind in ("single", "five", "toy"):
+        ok, bad = (TOY_OK, TOY_BAD) if kind == "toy" else (RV_OK, RV_BAD)
+        for a in ok:
+            for pattern in ([a, "B", a], [a, a], [a, "O", a], ["B", a], [a, "B", "B", a]):
+                texts = [(rng.choice(bad) if t == "B" else rng.choice([o for o in ok if o != a]) if t == "O" else t) for t in pattern]
+                if kind == "toy":
+                    lines = ["toy.new", "toy.snap"]
+                    for t in texts:
+                        lines += [f"toy.asm {toyasmgen.hx(t)}", "toy.snap"]
+                    lines += ["toy.call step", "toy.snap", "toy.run 300", "toy.snap", "toy.call step", "toy.snap"]
+                else:
+                    d = rvgen.cache_spec(rng, "d", 0.5)
+                    lines = [f"sim.new {kind} 1 {d} -", "sim.snap"]
+                    for t in texts:
+                        lines += [f"sim.load {rvasmgen.hx(t)}", "sim.snap"]
+                    lines += ["sim.step", "sim.done", "sim.snap", "sim.run 300", "sim.done", "sim.snap", "sim.step", "sim.snap"]
+                yield Case("reload-patterns", lines, None, {"mode": kind, "loads": len(texts)})
+
+
 def cases(rng, tier):
+    yield from reload_patterns(rng, tier)
     n = 220 if tier == "quick" else 4000
     for i in range(n):
         yield rv_case(rng, tier) if i % 3 else toy_case(rng, tier)
